@@ -8,7 +8,7 @@ PROP = {
     "jobs": [
         job("authgate", "core", "./internal/integration_tests/", "integration_tests",
             [KIT, "harness/core/internal/integration_tests/c01_test.go"], "^TestVerifC01",
-            ["c01-auth-gate", "c01-concurrent-auth"], race=False, timeout_quick=600, timeout_thorough=3600),
+            ["c01-auth-gate", "c01-concurrent-auth"], race=False, timeout_quick=300, timeout_thorough=3600),
     ],
     "min_events": 200,
     "rule": ("PRNG scripts over 2..6 concurrent raw connections to one real server (virtual time, one-way latency "
